@@ -182,6 +182,12 @@ class _Memoised:
         return self.memo[key]
 
 
+# pure numpy functions of literal data: folded with numpy itself
+_FOLDABLE = {'repeat', 'tile', 'array', 'asarray', 'ones', 'zeros', 'cos', 'sin', 'sqrt', 'outer', 'multiply.outer', 'multiply', 'ravel',
+             'concatenate', 'kron', 'full', 'arange', 'linspace', 'reshape', 'broadcast_to', 'meshgrid', 'stack', 'hstack', 'square',
+             'add', 'subtract', 'divide', 'power', 'ones_like', 'zeros_like', 'ascontiguousarray', 'copy', 'einsum', 'prod'}
+
+
 class FoldModel(WitnessModel):
     """Constant folding of the numeric part of the reference rule with numpy itself."""
 
@@ -195,9 +201,12 @@ class FoldModel(WitnessModel):
             fn = np.polynomial.chebyshev.chebgauss if 'chebgauss' in path else np.polynomial.legendre.leggauss
             x, w = fn(args[0])
             return (x, w)
-        if path.startswith('numpy.') and path.split('.')[1] in ('repeat', 'tile', 'array', 'asarray', 'ones', 'zeros', 'cos', 'sin', 'sqrt') \
+        if path.startswith('numpy.') and path[len('numpy.'):] in _FOLDABLE \
                 and all(isinstance(a, list | tuple | int | float | np.ndarray | np.generic) for a in args):
-            return getattr(np, path.split('.')[1])(*args, **kwargs)
+            fn = np
+            for part in path.split('.')[1:]:
+                fn = getattr(fn, part)
+            return fn(*args, **kwargs)
         return super().call_ext(interp, path, args, kwargs, node)
 
     def sc_array(self, interp, args, kwargs, node):
@@ -326,22 +335,30 @@ def run(tier: str) -> Run:
 
     # ---- R3 assembly ----------------------------------------------------------------------
     r3 = run.rule('R3', 'product rule assembly, scaling and translation; centre and volume', 5)
-    pfi = repo.func(MOD, '_cylinder_quadrature_from_product')
-    T.reset()
-    it = Interp(repo, Model())
-    disk = {'weights': [2.0, 3.0], 'x': [5.0, 7.0], 'y': [11.0, 13.0]}
-    line = {'x': [17.0, 19.0, 23.0], 'weights': [29.0, 31.0, 37.0]}
-    outs = it.run_all(lambda i: i.call_function(pfi, [disk, line], {}))
-    ok = len(outs) == 1 and outs[0].kind == 'return' and isinstance(outs[0].value, dict)
-    detail = {}
-    if ok:
-        v = outs[0].value
-        want = {'weights': [dw * lw for dw in disk['weights'] for lw in line['weights']],
-                'x': [dx for dx in disk['x'] for _ in line['x']], 'y': [dy for dy in disk['y'] for _ in line['x']],
-                'z': [lx for _ in disk['x'] for lx in line['x']]}
-        ok = all(isinstance(v.get(k), list) and v[k] == want[k] for k in want)
-        detail = {k: v.get(k) if isinstance(v.get(k), list) else repr(v.get(k)) for k in want}
-    r3.check(ok, '_cylinder_quadrature_from_product', loc(pfi), detail, key='product')
+    try:
+        pfi = repo.func(MOD, '_cylinder_quadrature_from_product')
+    except AnalysisError:
+        pfi = None  # a private helper: without it the assembly is decided by the moments of the assembled rules (R2b)
+    if pfi is None:
+        r3.ok('product rule assembly (no separate helper)', {'decided_by': 'moments of the assembled reference rules'})
+    else:
+        import numpy as np
+        T.reset()
+        fm = FoldModel()
+        fwi = WitnessInterp(repo, fm)
+        disk = {'weights': np.array([2.0, 3.0]), 'x': np.array([5.0, 7.0]), 'y': np.array([11.0, 13.0])}
+        line = {'x': np.array([17.0, 19.0, 23.0]), 'weights': np.array([29.0, 31.0, 37.0])}
+        kind_, v = call(fwi, pfi, [disk, line])
+        ok = kind_ == 'return' and isinstance(v, dict)
+        detail = {'outcome': kind_}
+        if ok:
+            want = {'weights': [dw * lw for dw in disk['weights'] for lw in line['weights']],
+                    'x': [dx for dx in disk['x'] for _ in line['x']], 'y': [dy for dy in disk['y'] for _ in line['x']],
+                    'z': [lx for _ in disk['x'] for lx in line['x']]}
+            got = {k: [float(e) for e in v[k]] if isinstance(v.get(k), np.ndarray | list) else None for k in want}
+            ok = all(got[k] == [float(e) for e in want[k]] for k in want)
+            detail = {k: got[k] if got[k] is not None else repr(v.get(k)) for k in want}
+        r3.check(ok, '_cylinder_quadrature_from_product', loc(pfi), detail, key='product')
     # scaling, rotation and translation of the reference rule: the rule itself is replaced by two symbolic points
     for axis_case in ('generic axis',):
         T.reset()
